@@ -540,6 +540,9 @@ func (fc *FnCtx) applyContract(fr *Frame, st *State, instr ssa.Instruction, spec
 	env.setResults(res)
 	fc.applyEffects(st, pre, spec, env)
 	for _, en := range spec.Ensures {
+		if strings.Contains(en.Src, "cur(") {
+			continue // speaks about the callee's locals at its exit: meaningless to a caller
+		}
 		t := fc.evalClauseEnv(st, pre, en, env)
 		fc.assume(st, t)
 	}
@@ -1100,7 +1103,15 @@ func (fc *FnCtx) execGo(fr *Frame, st *State, x *ssa.Go) {
 	}
 	spec := fc.eng.specs[funcDisplayName(callee)]
 	if spec == nil {
-		fc.abstract(x, "goroutine "+funcDisplayName(callee)+" spawned without contract: effects not tracked")
+		// no contract: everything the goroutine (and what it calls) may write is unknown from now on;
+		// it is havoc'd here and again at every later WaitGroup.Wait of this function
+		ws := map[string]bool{}
+		for h := range fc.eng.writeSet(callee) {
+			ws[h] = true
+		}
+		fc.spawned = append(fc.spawned, ws)
+		fc.havocWrites(st, ws)
+		fc.abstract(x, "goroutine "+funcDisplayName(callee)+" spawned without contract: its write set is havoc'd at the spawn and at every WaitGroup.Wait")
 		return
 	}
 	var args []Val
